@@ -29,13 +29,21 @@ use std::os::unix::io::AsRawFd;
 use std::sync::atomic::{AtomicU64, Ordering};
 use std::sync::Arc;
 use vm_memory::mmap::MmapRegionBuilder;
-use vm_memory::{FileOffset, GuestAddress, GuestMemory, GuestMemoryMmap, GuestRegionMmap, MmapRegion};
+use vm_memory::{FileOffset, GuestAddress, GuestMemory, GuestMemoryMmap, GuestMemoryRegion, GuestRegionMmap, MmapRegion};
 
 pub const SUITES_IMPL: &[Suite] = &[Suite { name: "C12", gen, exec }];
 
 type M = GuestMemoryMmap<()>;
 type R = GuestRegionMmap<()>;
 const PAGE: usize = 0x1000;
+/// region sizes are deliberately not all page multiples: what has to disappear on the last drop is the
+/// whole page span of the mapping (a munmap with a rounded-down length would leave the tail behind)
+fn size_of_region(id: u64) -> usize {
+    [0x1000usize, 0x800, 0x1001, 0x3800, 0x2000, 0x1fff][(id % 6) as usize]
+}
+fn span_of(size: usize) -> usize {
+    (size + PAGE - 1) / PAGE * PAGE
+}
 const MAGIC: u64 = 0x0c12_0c12_5eed_0000;
 static CASE: AtomicU64 = AtomicU64::new(0);
 
@@ -48,6 +56,7 @@ struct Info {
     kind: u64,
     name: String,
     addr: usize,
+    size: usize,
     dead_seen: bool,
 }
 
@@ -96,7 +105,9 @@ fn live_mask(infos: &mut [Info]) -> u128 {
     let mut mask = 0u128;
     for (r, inf) in infos.iter_mut().enumerate() {
         let alive = if inf.kind == 0 {
-            if !inf.dead_seen && !covered(&mp, inf.addr, PAGE) {
+            // alive while ANY page of the mapping's page span is still mapped
+            let any = (0..span_of(inf.size) / PAGE).any(|k| covered(&mp, inf.addr + k * PAGE, PAGE));
+            if !inf.dead_seen && !any {
                 inf.dead_seen = true;
             }
             !inf.dead_seen
@@ -113,26 +124,28 @@ fn live_mask(infos: &mut [Info]) -> u128 {
 fn create(cid: u64, id: u64, kind: u64, slot: u64, raws: &mut Vec<usize>) -> (Arc<R>, Info) {
     let name = format!("vmh12_{}_r{}", cid, id);
     let prot = libc::PROT_READ | libc::PROT_WRITE;
+    let size = size_of_region(id);
     let region: MmapRegion<()> = match kind {
-        0 => MmapRegion::new(PAGE).unwrap(),
-        1 => MmapRegion::from_file(FileOffset::new(memfd(&name, PAGE), 0), PAGE).unwrap(),
+        0 => MmapRegion::new(size).unwrap(),
+        1 => MmapRegion::from_file(FileOffset::new(memfd(&name, span_of(size)), 0), size).unwrap(),
         _ => {
-            let f = memfd(&name, PAGE);
+            let f = memfd(&name, span_of(size));
             // SAFETY: a fresh shared mapping owned by the harness; unmapped by the harness at the end
-            let p = unsafe { libc::mmap(std::ptr::null_mut(), PAGE, prot, libc::MAP_SHARED, f.as_raw_fd(), 0) };
+            let p = unsafe { libc::mmap(std::ptr::null_mut(), span_of(size), prot, libc::MAP_SHARED, f.as_raw_fd(), 0) }; // span <= 4 pages
             assert_ne!(p, libc::MAP_FAILED);
             raws.push(p as usize);
+            raws.push(span_of(size));
             // SAFETY: p..p+PAGE is a valid mapping for the life of the region (see above)
             unsafe {
                 if id % 2 == 0 {
-                    MmapRegionBuilder::<()>::new(PAGE)
+                    MmapRegionBuilder::<()>::new(size)
                         .with_raw_mmap_pointer(p as *mut u8)
                         .with_mmap_prot(prot)
                         .with_mmap_flags(libc::MAP_SHARED)
                         .build()
                         .unwrap()
                 } else {
-                    MmapRegion::build_raw(p as *mut u8, PAGE, prot, libc::MAP_SHARED).unwrap()
+                    MmapRegion::build_raw(p as *mut u8, size, prot, libc::MAP_SHARED).unwrap()
                 }
             }
         }
@@ -144,7 +157,7 @@ fn create(cid: u64, id: u64, kind: u64, slot: u64, raws: &mut Vec<usize>) -> (Ar
         std::ptr::write_volatile((addr as *mut u64).add(1), MAGIC ^ id);
     }
     let r = Arc::new(GuestRegionMmap::new(region, GuestAddress(slot * 0x10000)).unwrap());
-    (r, Info { kind, name, addr, dead_seen: false })
+    (r, Info { kind, name, addr, size, dead_seen: false })
 }
 
 fn exec(case: &[Tok]) -> Vec<Tok> {
@@ -206,7 +219,9 @@ fn exec(case: &[Tok]) -> Vec<Tok> {
             3 => {
                 if let Some(Some(H::Map(m))) = handles.get(idx(a)) {
                     let base = (b / 2) * 0x10000;
-                    let size = if b % 2 == 0 { PAGE as u64 } else { 2 * PAGE as u64 };
+                    // the right size is the actual size of the region that starts there (if any); odd b = wrong size
+                    let actual = m.iter().find(|r| r.start_addr().0 as u128 == base).map(|r| r.len()).unwrap_or(PAGE as u64);
+                    let size = if b % 2 == 0 { actual } else { actual + PAGE as u64 };
                     let r = if base <= u64::MAX as u128 { m.remove_region(GuestAddress(base as u64), size).ok() } else { None };
                     match r {
                         Some((m2, arc)) => {
@@ -257,10 +272,10 @@ fn exec(case: &[Tok]) -> Vec<Tok> {
         out.push(if corrupt { u128::MAX } else { live_mask(&mut infos) });
     }
     handles.clear();
-    for p in raws {
-        // SAFETY: mapped by `create` above, no region object refers to it any more
+    for ps in raws.chunks(2) {
+        // SAFETY: mapped by `create` above (address, span), no region object refers to it any more
         unsafe {
-            libc::munmap(p as *mut libc::c_void, PAGE);
+            libc::munmap(ps[0] as *mut libc::c_void, ps[1]);
         }
     }
     vec![Tok::L(out)]
